@@ -102,6 +102,7 @@ struct Run {
     /// per dispatch: the accept thread's availability bits (by worker index) right after it
     davail: Vec<Vec<bool>>,
     dmarked: Vec<bool>,
+    dturn: Vec<(usize, bool)>,
     ever_faulted: bool,
     pending_faults: Vec<usize>,
     injected: Vec<usize>, // outstanding injected errors per listener
@@ -203,7 +204,7 @@ impl Run {
             "served": served, "closed": closed,
             "listener": s.listener.iter().map(|l| l + 1).collect::<Vec<_>>(),
             "connected": s.connected,
-            "dlog": self.dlog.iter().enumerate().map(|(k, d)| json!([d.0, d.1, d.2, d.3, d.4, d.5, self.dcalm.get(k).copied().unwrap_or(false), self.davail.get(k).cloned().unwrap_or_default(), self.dmarked.get(k).copied().unwrap_or(true)])).collect::<Vec<_>>(),
+            "dlog": self.dlog.iter().enumerate().map(|(k, d)| json!([d.0, d.1, d.2, d.3, d.4, d.5, self.dcalm.get(k).copied().unwrap_or(false), self.davail.get(k).cloned().unwrap_or_default(), self.dmarked.get(k).copied().unwrap_or(true), self.dturn.get(k).map(|t| t.0).unwrap_or(0), self.dturn.get(k).map(|t| t.1).unwrap_or(false)])).collect::<Vec<_>>(),
             "faults": s.faults, "everFaulted": self.ever_faulted,
             "cmdq": pending_faults(s),
             "skipped": s.skipped,
@@ -355,6 +356,7 @@ fn run_schedule(run_id: usize, sch: &Value, dir: &str, trace: &mut Trace, strict
         dcalm: vec![],
         davail: vec![],
         dmarked: vec![],
+        dturn: vec![],
         ever_faulted: false,
         pending_faults: vec![],
         injected: vec![0; listeners.len()],
@@ -625,6 +627,7 @@ fn absorb(run: &mut Run, s: &Snap) {
         })
         .collect();
     run.dmarked = s.dmarked.clone();
+    run.dturn = s.dturn.clone();
     run.davail = s.davail.iter().map(|m| (0..run.killed.len()).map(|i| m & (1 << i) != 0).collect()).collect();
     for k in run.dcalm.len()..s.dispatched.len() {
         let below = s.dmaxload.get(k).map(|m| *m < run.limit).unwrap_or(false);
